@@ -2747,6 +2747,31 @@ class PerspConvex(Convex):
                 raise ValueError('Models of operands mismatch.')
         self.affine_scale = affine_scale
 
+    def __call__(self):
+
+        if self.model.mtype != 'R':
+            raise ValueError('Unsupported affine expression.')
+
+        if self.model.solution is None:
+            raise SyntaxError('No available solution!')
+
+        value_in = self.affine_in()
+        scale = self.affine_scale
+        if isinstance(scale, (Vars, VarSub, Affine)):
+            scale = scale()
+        value_out = self.affine_out
+        if isinstance(value_out, Affine):
+            value_out = value_out()
+
+        if self.xtype == 'X':
+            output = scale * np.exp(value_in / scale)
+        elif self.xtype == 'L':
+            output = - scale * np.log(value_in / scale)
+        else:
+            raise ValueError('Unsupported convex/concave expression.')
+
+        return self.multiplier*self.sign*output + value_out
+
     def __repr__(self):
 
         xtypes = {'X': 'natural exponential',
